@@ -28,6 +28,9 @@ and reports a DIFF if they differ, the result is the only input of the reward co
   lk.config    amap app asset surplus debt active | esm app on | kill app on | english app on      <o> <S>
   lk.activate  gen(1|2) app:asset;app:asset;…     <o> <S>   (one begin-block: x/auction BeginBlocker resp. liquidationsV2 BeginBlocker;
                                                              the keys are the auction-mapping entries in store order)
+  lk.begin1    now app:asset;…                    <o> <S>   (the whole x/auction BeginBlocker: starts, restarts, every close path)
+  lk.sbid      app auctionId u amount now         <o> <S>   (MsgPlaceSurplusBid)
+  lk.dbid      app auctionId u bid expected now   <o> <S>   (MsgPlaceDebtBid)
   lk.sync                                             <S>   (real steps that the model does not describe: bids, vault-side moves)
 `<obs>` = what the real call added to `LockerTotalRewardsByAssetAppWise` (`-` when the call failed); compared with the reward
 the model computed.
@@ -36,7 +39,9 @@ the model computed.
 T=id:app:raw;…|C=app:asset:lsr:bh:bt:sthr:dthr:lot:dlot;…|W=app:asset;…`
 with `acct` ∈ `u<n>` | `locker` | `collector`, every list sorted by key, zero balances omitted; `T` = reward trackers (raw 10^-18),
 `C` = collector lookup table, `W` = (app, asset) pairs whitelisted for internal rewards; further
-`|A=app:asset:surplus:debt:active;…|E=apps with ESM executed|X=apps with kill switch on|G=apps with English auctions activated`.
+`|A=app:asset:surplus:debt:active;…|E=apps with ESM executed|X=apps with kill switch on|G=apps with English auctions activated`
+`|S=id:app:asset:s|d:lot:other:bidder|-:endT:bidEndT;…` (running first-generation auctions) `|N=auction id counter`;
+`lk.begin` may carry `adur=`, `bdur=`, `bf=` (auction duration, bid duration, bid factor raw).
 
 Outputs: `DIFF` (model ≠ code: outcome or any field of the projection), `MON` (a property monitor is false on the REAL state /
 REAL call), `BAD` (protocol). After every line the model state is replaced by the real one, so one divergence is reported once.
@@ -101,6 +106,14 @@ def parseAMap? (t : String) : Option ((Nat × Nat) × AMap) :=
     pure ((← ap.toNat?, ← a.toNat?), m)
   | _ => none
 
+def parseAuc? (t : String) : Option Auc1 :=
+  match t.splitOn ":" with
+  | [id, ap, a, kd, lot, oth, bd, e1, e2] => do
+    let bidder : Option Nat ← if bd = "-" then pure none else (bd.toNat?).map some
+    pure { id := ← id.toNat?, app := ← ap.toNat?, asset := ← a.toNat?, surplus := kd = "s", lot := ← lot.toInt?, other := ← oth.toInt?,
+           bidder := bidder, endT := ← e1.toInt?, bidEndT := ← e2.toInt? }
+  | _ => none
+
 def parseLk? (t : String) : Option ((Nat × Nat) × Lk) :=
   match t.splitOn ":" with
   | [ap, a, d, ids] => do pure ((← ap.toNat?, ← a.toNat?), { deposited := ← d.toInt?, ids := ← parseNatList ids })
@@ -133,10 +146,12 @@ def parseState (cfg : State) (t : String) : Option State := do
   let es ← (section? parts "E") >>= parseNatList
   let xs ← (section? parts "X") >>= parseNatList
   let gs ← (section? parts "G") >>= parseNatList
+  let aucs ← match section? parts "S" with | some t => parseList parseAuc? t | none => some []
+  let ctr := match (section? parts "N") >>= (·.toNat?) with | some n => n | none => cfg.lastAuc
   let maxId := ls.foldl (fun m p => max m p.1.1) cfg.lastId
   pure { cfg with bank := bs, lockers := ls.map (·.1), lookup := ks, fees := fs, lastId := maxId,
                   ltime := ls.map (fun p => (p.1.1, p.2)), trackers := ts, collk := cs, rewardWl := ws,
-                  amap := am, esmOn := es, killOn := xs, englishOn := gs }
+                  amap := am, esmOn := es, killOn := xs, englishOn := gs, auctions := aucs, lastAuc := ctr }
 
 def parseRw? (t : String) : Option Rw :=
   if t = "none" then some .none
@@ -173,6 +188,8 @@ structure Norm where
   es : List Nat
   xs : List Nat
   gs : List Nat
+  aucs : List Auc1
+  ctr : Nat
   deriving DecidableEq
 
 def dedupKeys {K V} [DecidableEq K] (s : Store K V) : Store K V :=
@@ -191,7 +208,9 @@ def norm (s : State) : Norm :=
     am := (dedupKeys s.amap).mergeSort (fun a b => leNN a.1 b.1)
     es := s.esmOn.eraseDups.mergeSort (· ≤ ·)
     xs := s.killOn.eraseDups.mergeSort (· ≤ ·)
-    gs := s.englishOn.eraseDups.mergeSort (· ≤ ·) }
+    gs := s.englishOn.eraseDups.mergeSort (· ≤ ·)
+    aucs := s.auctions.mergeSort (fun a b => a.id ≤ b.id)
+    ctr := s.lastAuc }
 
 def showAcct : Acct → String
   | .user n => s!"u{n}" | .locker => "locker" | .collector => "collector" | .auction => "auction" | .auctionV2 => "auctionV2"
@@ -206,7 +225,10 @@ def showNorm (n : Norm) : String :=
   "|C=" ++ ";".intercalate (n.cs.map fun p => s!"{p.1.1}:{p.1.2}:{p.2.lsr}:{p.2.bh}:{p.2.bt}:{p.2.surplusThr}:{p.2.debtThr}:{p.2.lot}:{p.2.debtLot}") ++
   "|W=" ++ ";".intercalate (n.ws.map fun p => s!"{p.1}:{p.2}") ++
   "|A=" ++ ";".intercalate (n.am.map fun p => s!"{p.1.1}:{p.1.2}:{p.2.surplus}:{p.2.debt}:{p.2.active}") ++
-  "|E=" ++ showNatList n.es ++ "|X=" ++ showNatList n.xs ++ "|G=" ++ showNatList n.gs
+  "|E=" ++ showNatList n.es ++ "|X=" ++ showNatList n.xs ++ "|G=" ++ showNatList n.gs ++
+  "|S=" ++ ";".intercalate (n.aucs.map fun a =>
+    s!"{a.id}:{a.app}:{a.asset}:{if a.surplus then "s" else "d"}:{a.lot}:{a.other}:{match a.bidder with | some u => toString u | none => "-"}:{a.endT}:{a.bidEndT}") ++
+  s!"|N={n.ctr}"
 
 /-! ### monitors on the real states -/
 
@@ -375,10 +397,24 @@ def handle (st : St) (seq : String) (f : List String) : St × List String :=
   let bad := (st, [s!"BAD\t{seq}\tcannot parse {"\t".intercalate f}"])
   let plain (op : Op) (o ss : String) := applyOp st seq ctx0 (.plain op) [] none o ss
   match f with
-  | ["lk.begin", a, ap, ck] =>
+  | "lk.begin" :: a :: ap :: ck :: rest =>
     match field? [a] "assets" >>= parseNatList, field? [ap] "apps" >>= parseNatList, field? [ck] "collk" >>= parseList parseCL? with
-    | some as, some aps, some cks => ({ s := { assets := as, apps := aps, collk := cks } }, [])
+    | some as, some aps, some cks =>
+      let geti (key : String) : Int := ((field? rest key) >>= (·.toInt?)).getD 0
+      ({ s := { assets := as, apps := aps, collk := cks, aucDur := geti "adur", bidDur := geti "bdur", bidFactor := geti "bf" } }, [])
     | _, _, _ => bad
+  | ["lk.begin1", now, ks, o, ss] =>
+    match now.toInt?, parsePairs ks with
+    | some now, some ks => plain (.begin1 now ks) o ss
+    | _, _ => bad
+  | ["lk.sbid", ap, id, u, x, now, o, ss] =>
+    match nat3 ap id u, x.toInt?, now.toInt? with
+    | some (ap, id, u), some x, some now => plain (.surplusBid ap id u x now) o ss
+    | _, _, _ => bad
+  | ["lk.dbid", ap, id, u, b, e, now, o, ss] =>
+    match nat3 ap id u, b.toInt?, e.toInt?, now.toInt? with
+    | some (ap, id, u), some b, some e, some now => plain (.debtBid ap id u b e now) o ss
+    | _, _, _, _ => bad
   | ["lk.sync", ss] =>
     match parseState st.s ss with
     | none => bad
